@@ -935,7 +935,72 @@ def o_cleanup_race(scen, nat, msg):
     return verdict(bad, dict(op=dict(code=16)), "a write fails because a competing cleaner removed a stale temp file first", "the write succeeds natively")
 
 
+def _stamp(path, at_ns, mt_ns):
+    os.utime(path, ns=(at_ns, mt_ns))
+
+
+def o_read_mark_boundaries(scen, nat, msg):
+    """C07: the scan's read mark is exactly `atime >= mtime` at full timestamp resolution.  Two boundary
+    directories, each pruned to one entry with the real library: (i) `old` written at T+0.6 s with its
+    last access at T+0.1 s (never read since) and a younger unread `new`: `old` is the victim;
+    (ii) `r` with atime == mtime (read) and a younger unread `u`: `u` is the victim, `r` is re-queued."""
+    import shutil
+    T = 1_600_000_000 * 10**9
+    bad = []
+    for profile in ("debug", "release"):
+        root = nat.sandbox()
+        try:
+            why = []
+            d1 = os.path.join(root, "w1"); os.makedirs(d1)
+            for name, at, mt in (("old", T + 10**8, T + 6 * 10**8), ("new", T + 880 * 10**9, T + 1000 * 10**9)):
+                open(os.path.join(d1, name), "w").write(name); _stamp(os.path.join(d1, name), at, mt)
+            nat.run(["prune", d1, 1], profile=profile)
+            left = sorted(os.listdir(d1))
+            if left != ["new"]:
+                why.append("unread `old` (atime < mtime within one second) survived instead of `new`: left %r" % left)
+            d2 = os.path.join(root, "w2"); os.makedirs(d2)
+            for name, at, mt in (("r", T + 5 * 10**8, T + 5 * 10**8), ("u", T - 100 * 10**9, T + 10 * 10**9)):
+                open(os.path.join(d2, name), "w").write(name); _stamp(os.path.join(d2, name), at, mt)
+            nat.run(["prune", d2, 1], profile=profile)
+            left = sorted(os.listdir(d2))
+            if left != ["r"]:
+                why.append("read `r` (atime == mtime) was not spared: left %r" % left)
+            if why:
+                bad.append((profile, "; ".join(why)))
+        finally:
+            shutil.rmtree(root, ignore_errors=True)
+    return verdict(bad, scen, "the read mark deviates from atime >= mtime at sub-second resolution", "read marks at the sub-second boundaries are honoured natively")
+
+
+def o_lookup_marks_used(scen, nat, msg):
+    """C09: after a lookup the entry counts as recently used whatever the kernel did on open.  `ka` has
+    its last access 0.6 s before its modification time, inside the same second (so a kernel that leaves
+    the access time alone leaves it unread); the lookup's re-touch step runs on the opened file without
+    reading it; then the directory is pruned to one entry: the younger unread `kb` must be the victim and
+    `ka` keeps its content."""
+    import shutil
+    T = 1_600_000_000 * 10**9
+    bad = []
+    for profile in ("debug", "release"):
+        root = nat.sandbox()
+        try:
+            d = os.path.join(root, "w"); os.makedirs(d)
+            for name, at, mt in (("ka", T + 10**8, T + 7 * 10**8), ("kb", T + 80 * 10**9, T + 200 * 10**9)):
+                open(os.path.join(d, name), "w").write(name); _stamp(os.path.join(d, name), at, mt)
+            r = nat.run(["raw", "opentouch", os.path.join(d, "ka")], profile=profile)
+            st = os.stat(os.path.join(d, "ka"))
+            nat.run(["prune", d, 1], profile=profile)
+            left = sorted(os.listdir(d))
+            if "result ok" in r["out"] and (left != ["ka"] or st.st_mtime_ns != T + 7 * 10**8):
+                bad.append((profile, "after a successful lookup step the entry was not recognised as used (left %r, mtime moved: %s)" % (left, st.st_mtime_ns != T + 7 * 10**8)))
+        finally:
+            shutil.rmtree(root, ignore_errors=True)
+    return verdict(bad, scen, "a looked-up entry is not recognised as recently used", "the looked-up entry was spared natively")
+
+
 ORACLES = [
+    (r"KV-C07: read mark is atime >= mtime", o_read_mark_boundaries),
+    (r"KV-C09: after a get the entry is recognised as recently used", o_lookup_marks_used),
     (r"collecting crash debris never re-modes|a published file is never re-moded", o_debris_mode),
     (r"temp cleanup succeeds when another participant removes", o_cleanup_race),
     (r"KV-C05: ", o_env_no_error),
